@@ -180,6 +180,7 @@ pub fn dkim(args: &[&str]) -> Option<Vec<String>> {
     };
     let before = m.formatted();
     let mh_before = m.headers().to_string();
+    let mut m_pub = m.clone();
     let seen: Arc<Mutex<Vec<(&'static str, Vec<u8>)>>> = Arc::new(Mutex::new(vec![]));
     let s2 = seen.clone();
     lettre::verif_hooks::set_observer(Some(Arc::new(move |tag, data| {
@@ -195,6 +196,51 @@ pub fn dkim(args: &[&str]) -> Option<Vec<String>> {
     let sig_used = tag_of(&after, "b").unwrap_or_default();
     let bh_ok = bh_used == b64(&Sha256::digest(&hook_body));
     let sig_ok = unb64(&sig_used).map(|s| verify(alg, &hook_hdr, &s)).unwrap_or(false);
+    // the public entry point (`Message::sign`, current time): the same two hash inputs up to the digits of t=, a signature
+    // that verifies, a time stamp within a minute of now
+    let pub_ok = {
+        let seen2: Arc<Mutex<Vec<(&'static str, Vec<u8>)>>> = Arc::new(Mutex::new(vec![]));
+        let s3 = seen2.clone();
+        lettre::verif_hooks::set_observer(Some(Arc::new(move |tag, data| {
+            s3.lock().unwrap().push((tag, data.to_vec()));
+        })));
+        let now = std::time::SystemTime::now().duration_since(UNIX_EPOCH).map(|d| d.as_secs()).unwrap_or(0);
+        m_pub.sign(&cfg);
+        lettre::verif_hooks::set_observer(None);
+        let after2 = m_pub.formatted();
+        let seen2 = seen2.lock().unwrap();
+        let get2 = |t: &str| seen2.iter().find(|(k, _)| *k == t).map(|(_, v)| v.clone()).unwrap_or_default();
+        let (b2, h2) = (get2("dkim.body"), get2("dkim.headers"));
+        let strip_t = |x: &[u8]| -> Vec<u8> {
+            let mut out = vec![];
+            let mut i = 0;
+            while i < x.len() {
+                if x[i..].starts_with(b" t=") || x[i..].starts_with(b";t=") {
+                    out.extend_from_slice(b";t=");
+                    i += 3;
+                    while i < x.len() && x[i].is_ascii_digit() {
+                        i += 1;
+                    }
+                } else {
+                    // the number of digits of t= moves the folds of the signature field: white space is not compared
+                    if !matches!(x[i], b' ' | b'\t' | b'\r' | b'\n') {
+                        out.push(x[i]);
+                    }
+                    i += 1;
+                }
+            }
+            out
+        };
+        let t2: u64 = tag_of(&after2, "t").and_then(|t| t.parse().ok()).unwrap_or(0);
+        let bh2 = tag_of(&after2, "bh").unwrap_or_default();
+        let sig2 = tag_of(&after2, "b").unwrap_or_default();
+        b2 == hook_body
+            && strip_t(&h2) == strip_t(&hook_hdr)
+            && bh2 == b64(&Sha256::digest(&b2))
+            && unb64(&sig2).map(|s| verify(alg, &h2, &s)).unwrap_or(false)
+            && t2 + 60 >= now
+            && t2 <= now + 60
+    };
     // signing twice with the same clock is deterministic for both algorithms
     Some(vec![
         "ok".into(),
@@ -205,7 +251,7 @@ pub fn dkim(args: &[&str]) -> Option<Vec<String>> {
         hex(&hook_hdr),
         hex(bh_used.as_bytes()),
         hex(sig_used.as_bytes()),
-        format!("{}{}", bh_ok as u8, sig_ok as u8),
+        format!("{}{}{}", bh_ok as u8, sig_ok as u8, pub_ok as u8),
     ])
 }
 
